@@ -67,19 +67,20 @@ def run_property(prop: str, root: str, tier: str, seed: int, evidence_dir=None, 
     extra = {}
     if tier == 'thorough' and hasattr(mod, 'thorough'):
         extra = mod.thorough(ctx, obs) or {}
+    floor_errors = []
     floor = getattr(mod, 'FLOOR', 1)
     n_decided = sum(1 for o in obs.items if o.verdict in (DISCHARGED, VIOLATED))
     if n_decided < floor:
-        raise AnalysisError(f'{prop}: only {n_decided} obligations decided, floor is {floor} '
+        floor_errors.append(f'{prop}: only {n_decided} obligations decided, floor is {floor} '
                             f'(rule instances vanished - the check would pass vacuously)')
     rule_floors = getattr(mod, 'RULE_FLOORS', {})
     for rule, fl in rule_floors.items():
         n = sum(1 for o in obs.items if o.rule == rule and o.verdict in (DISCHARGED, VIOLATED))
         if n < fl:
-            raise AnalysisError(f'{prop}: rule {rule} decided {n} instances, floor is {fl}')
+            floor_errors.append(f'{prop}: rule {rule} decided {n} instances, floor is {fl}')
     for key, fl in getattr(mod, 'ANALYSED_FLOORS', {}).items():
         if int(obs.analysed.get(key, 0)) < fl:
-            raise AnalysisError(f'{prop}: analysed[{key}] = {obs.analysed.get(key, 0)}, floor is {fl}')
+            floor_errors.append(f'{prop}: analysed[{key}] = {obs.analysed.get(key, 0)}, floor is {fl}')
     known, fixed = load_known()
     known_hits, new_viol = [], []
     for o in obs.items:
@@ -91,6 +92,11 @@ def run_property(prop: str, root: str, tier: str, seed: int, evidence_dir=None, 
             known_hits.append(o)
         else:
             new_viol.append(o)
+    # a definite violation is reported even when instance counts dropped (the edit that broke the clause may also
+    # have removed sibling instances); without any violation a count below the hand-confirmed floor is an analysis
+    # error (exit 2), never a silent pass
+    if floor_errors and not new_viol:
+        raise AnalysisError('; '.join(floor_errors))
     wall = time.time() - t0
     write_evidence(prop, tier, seed, obs, known_hits, new_viol, wall,
                    getattr(mod, 'EXPLANATION', ''), getattr(mod, 'ASSUMPTIONS', []), extra, evidence_dir)
